@@ -7,6 +7,7 @@ plus an independent Python oracle: on every pair of molecules of a group
 """
 from __future__ import annotations
 
+import ast as pyast
 import contextlib
 import copy
 import hashlib
@@ -25,7 +26,8 @@ import numpy as np
 from common import Ctx, Finding, Outcome, err_class
 
 PROPERTY = "C11"
-LEAN_TARGETS = ["QcelVerif.Props.C11", "QcelVerif.Props.C11Preimage", "QcelVerif.Props.C11Examples", "QcelVerif.Driver.C11"]
+LEAN_TARGETS = ["QcelVerif.Props.C11", "QcelVerif.Props.C11Preimage", "QcelVerif.Props.C11Examples", "QcelVerif.Lemmas.HashConcrete",
+                "QcelVerif.Props.C11Concrete", "QcelVerif.Props.C11Spec", "QcelVerif.Driver.C11"]
 DRIVER = "QcelVerif/Driver/C11.lean"
 THEOREMS = [
     ("QcelVerif.Hash.hash_of_canon", "canon a = canon b -> hash a = hash b (and == holds), for any printing / SHA-1 parameters"),
@@ -50,23 +52,57 @@ THEOREMS = [
     ("QcelVerif.Hash.round_separates", "|x - y| * 10^k > 1 -> x and y round to different k-decimal values"),
     ("QcelVerif.Hash.single_edit_changes_canon", "one coordinate moved by more than 1e-8 (outside the zero band) changes canon, hence the preimage and the hash"),
     ("QcelVerif.Hash.discrete_edit_changes_canon", "a changed symbol list, multiplicity, real flags, fragments, fragment multiplicities or stored bond list changes canon"),
+    # ---- Props/C11Concrete.lean: the hypotheses discharged for the driver's concrete parameters
+    ("QcelVerif.Hash.flOk_concrete", "the concrete rounding rndDouble (round-to-nearest-even to 53 bits) satisfies FlOk: |rndDouble y - y| <= 1/256 for every |y| <= 2^45"),
+    ("QcelVerif.Hash.concrete_printer_exact", "the concrete printer prints the exact value: read back as a decimal literal, reprRd k r is sign r.neg and magnitude r.mag/10^k, for every k and every r (no bound)"),
+    ("QcelVerif.Hash.reprF_concrete_ok", "hence reprRd k is injective, non-empty and over the alphabet 0-9 + - . e, for every k and every rounded value: the reprF half of Params.Ok holds of the concrete printer"),
+    ("QcelVerif.Hash.reprB_concrete_ok", "the concrete bond-order printer reprRat is injective, non-empty and delimiter-free on DecPrintable rationals (denominator divides 10^k, k <= 18)"),
+    ("QcelVerif.Hash.decPrintable_eighths", "every multiple of 1/8 (the bond orders of the model stream) is DecPrintable"),
+    ("QcelVerif.Hash.reprRat_not_injective", "counter-example: outside that domain reprRat prints '?' (1/3 and 1/7 collide), so Params.Ok as stated for all rationals is false of the concrete printer - hence the domain version below"),
+    ("QcelVerif.Hash.preimage_injective_on", "preimage_injective with the bond-order printer assumed only on a domain SB and all stored bond orders in SB (the old theorem is the instance SB = True)"),
+    ("QcelVerif.Hash.concreteParams_okOn", "the driver's parameters (rndDouble, reprRd, reprRat; SHA-1 and mass table arbitrary) satisfy the printing hypotheses on DecPrintable bond orders"),
+    ("QcelVerif.Hash.preimage_injective_concrete", "at the concrete printers, with NO printing hypothesis: charge-tied canonical data with letter symbols and DecPrintable bond orders are determined by their json preimage"),
+    ("QcelVerif.Hash.hash_sign_of_zero_concrete", "hash_sign_of_zero at the concrete parameters, FlOk hypothesis gone"),
+    ("QcelVerif.Hash.prepArr_small_zero_concrete", "prepArr_small_zero at rndDouble, FlOk hypothesis gone"),
+    ("QcelVerif.Hash.round_stable_concrete", "round_stable at rndDouble, FlOk hypothesis gone"),
+    ("QcelVerif.Hash.hash_noise_concrete", "hash_noise at the concrete parameters, FlOk hypothesis gone"),
+    ("QcelVerif.Hash.prep_idempotent_concrete", "prep_idempotent at rndDouble, FlOk hypothesis gone"),
+    ("QcelVerif.Hash.construct_hash_concrete", "construct_hash at the concrete parameters, FlOk hypothesis gone"),
+    ("QcelVerif.Hash.canon_eq_iff_fields_agree_concrete", "canon_eq_iff_fields_agree at the concrete parameters, FlOk hypothesis gone (zero-band exclusion stays)"),
+    ("QcelVerif.Hash.hash_eq_iff_fields_agree_concrete", "hash a = hash b <-> listed fields agree after rounding, at the concrete rounding and printers: the only parameter hypothesis left is SHA-1 not colliding on the two preimages"),
+    ("QcelVerif.Hash.round_separates_concrete", "round_separates at rndDouble, FlOk hypothesis gone"),
+    ("QcelVerif.Hash.single_edit_changes_canon_concrete", "single_edit_changes_canon at the concrete parameters, FlOk hypothesis gone"),
+    # ---- Props/C11Spec.lean: the model's constants / field list are those re-read from molecule.py
+    ("QcelVerif.Hash.noise_constants_match_source", "the model's GEOMETRY_NOISE / MASS_NOISE / CHARGE_NOISE equal the constants re-read from molecule.py on this run"),
+    ("QcelVerif.Hash.fieldSpec_matches_source", "the model's field table (ten fields, their order, decimals per rounded field) equals hash_fields + get_hash's float_prep map re-read from molecule.py"),
+    ("QcelVerif.Hash.fieldConst_matches_source", "which named constant get_hash hands to float_prep for which field: model table equals the source's"),
+    ("QcelVerif.Hash.zeroBand_constants_match_source", "base 5 and exponent offset 1 of float_prep's zero band equal those re-read from the expression in molecule.py"),
+    ("QcelVerif.Hash.preimage_follows_fieldSpec", "the model's preimage is the concatenation, in table order, of the per-field json texts (the table is not decoration)"),
+    ("QcelVerif.Hash.canon_follows_fieldSpec", "the model's canon rounds each field to the decimals the table gives"),
+    ("QcelVerif.Hash.zeroBand_follows_constants", "the model's zero band is mag * base^(k+offset) < 10^k at the table's base and offset"),
+    ("QcelVerif.Hash.preimage_matches_source", "preimage = table-driven preimage at the field list READ FROM THE SOURCE (order included)"),
+    ("QcelVerif.Hash.canon_matches_source", "canon = table-driven canon at the decimals READ FROM THE SOURCE"),
+    ("QcelVerif.Hash.zeroBand_matches_source", "zeroBand k r = (r.mag * B^(k+O) < 10^k) with B, O READ FROM THE SOURCE"),
 ]
 TRUSTED_BASE = [
     "Lean 4.33 kernel; axioms per theorem audited on every run (subset of propext, Classical.choice, Quot.sound)",
-    "hand-written model Model/Hash.lean of float_prep, the property accessors' defaults, get_hash's field loop + json.dumps layout, __eq__, construction-time geometry rounding and the bond canonicalisation of from_arrays; tied by differential correspondence (canonical fields, the whole json preimage, sha1(preimage) == get_hash())",
+    "hand-written model Model/Hash.lean of float_prep, the property accessors' defaults, get_hash's field loop + json.dumps layout, __eq__, construction-time geometry rounding and the bond canonicalisation of from_arrays; tied by differential correspondence (canonical fields, the whole json preimage, sha1(preimage) == get_hash()). REGENERATED FROM THE SOURCE and proved equal to the model's (Props/C11Spec.lean, broken build = broken obligation): the three *_NOISE constants, hash_fields with its order, the field -> float_prep-constant map of get_hash, base and exponent offset of float_prep's zero band",
+    "translator gen_hash_spec in harness/c11.py (python `ast` of qcelemental/models/molecule.py -> lean/QcelVerif/Gen/HashSpec.lean; only the syntax tree is read, so whitespace/comments/branch order are immaterial; a shape it does not recognise is reported as a broken obligation, never guessed). The construction-time default `geometry_noise = kwargs.pop(..., GEOMETRY_NOISE)` is NOT re-read (differential only: the `cons` lines of the driver stream)",
     "SHA-1 is an abstract parameter of the theorems (collision-freeness is an explicit hypothesis, never proved); the harness applies hashlib.sha1 to the model's preimage",
-    "CPython repr(float) / json.dumps float printing is an abstract parameter of the theorems (hypothesis Params.Ok: injective on canonical values, output over 0-9 + - . e, non-empty); the driver's concrete printer (shortest repr of a <=15-digit decimal) is checked character by character on every generated value",
-    "np.around is modelled as rint(fl(x*10^k)) with fl = rounding of the product to a double, a parameter of the theorems (hypothesis FlOk: |fl y - y| <= 1/256 for |y| <= 2^45, i.e. IEEE round-to-nearest); the driver instantiates fl by an executable round-to-nearest-even to 53 bits (normal range), compared with numpy on arbitrary doubles including decimal near-ties (default masses such as 207.9766525 sit on them). Python round() (scalar branch) is exact (fl = id)",
-    "default masses (periodictable.to_mass, property C01) are handed to the model by the harness",
+    "float printing: the driver's concrete printer reprRd/reprRat is PROVED (Props/C11Concrete.lean) to print the exact value mag/10^k - hence injective, non-empty, over 0-9 + - . e - for every k and every rounded value, and for bond orders whose denominator divides 10^k, k <= 18; the theorems are restated at these concrete printers with the Params.Ok hypothesis gone. What stays trusted: CPython's repr(float)/json.dumps prints the same characters as reprRd for the double nearest to a decimal of <= 15 significant digits - compared character by character on the whole preimage of every generated molecule",
+    "np.around is modelled as rint(fl(x*10^k)); the driver's fl = rndDouble (round-to-nearest-even to 53 bits, normal range) is PROVED to satisfy FlOk (|fl y - y| <= 1/256 for |y| <= 2^45) and the theorems are restated at it with the FlOk hypothesis gone. What stays trusted: numpy's product x*10**k is that correctly rounded double (IEEE-754) - compared with numpy on value streams of arbitrary doubles including decimal near-ties (default masses such as 207.9766525 sit on them). Python round() (scalar branch) is exact (fl = id)",
+    "default masses (periodictable.to_mass, property C01) are handed to the model by the harness (the theorems hold for any mass table)",
     "everything else the constructor does (validation, charge/multiplicity completion, text parsing, serialisation) is C04/C05/C07/C10's subject: here it is exercised through the oracle only",
     "harness/c11.py generators and the Python oracle (independent rounding with fractions.Fraction, half-even)",
 ]
 ASSUMPTIONS = [
     "validated molecules with integer charges/multiplicities, contiguous fragments, finite coordinates |x| < 1e5 bohr (printing of <=15 significant digits), element symbols made of letters",
-    "bond orders strictly positive multiples of 1/8 in the model stream (exactly printable); bond order -0.0 vs 0.0 prints differently (bond orders are not float_prep'ed) - outside the quantifier, not generated",
+    "bond orders strictly positive multiples of 1/8 in the model stream (exactly printable: DecPrintable, theorem decPrintable_eighths); the concrete theorems cover bond orders n/10^j and n/2^j with j <= 18, not arbitrary doubles such as 0.1 (55-bit denominator; the concrete printer refuses them with '?'); bond order -0.0 vs 0.0 prints differently (bond orders are not float_prep'ed) - outside the quantifier, not generated",
+    "domain of the concrete theorems: printing - every rounded value (no bound); rounding - scaled values |x*10^k| <= 2^45 (hypothesis Bdd of the general theorems), implied by the scope above: |coordinate| < 1e5 bohr -> < 1e13, masses < 300 -> < 3e8, |charge| < 1e3 -> < 1e7, all below 2^45 ~ 3.5e13",
     "text routes (psi4 text, .psimol/.psi4/.xyz/.npy files) only for molecules those formats can carry: default masses, no atom labels; bonds are re-attached through a re-validated dict; .xyz/.npy additionally single-fragment neutral all-real molecules",
     "the mixed route Molecule.from_data(text, connectivity=...) (structural kwargs merged after validation; bonds stored un-canonicalised) is outside the property's construction routes: not generated, no demand",
     "noise twins: coordinates at least 0.05 rounding units from a rounding boundary, noise <= 1e-10 (the property's quantifier)",
+    "records edited on routes that do not re-validate (copy(update=), dict with validated=True, validate=False, edited payloads) keep their bond list in the canonical form validation stores (oriented, sorted): a hand-made unsorted bond list inside an un-revalidated record is not a validated molecule (same exclusion as from_data(text, connectivity=...)); every other field of such a record is taken as it is and judged by the pairwise iff on its attributes",
     "the theorem preimage_injective needs the charge tie (charge = sum of fragment charges, exact for the integer charges in scope); fractional fragment charges are generated only for the zero-band known finding",
 ]
 RULE = (
@@ -77,14 +113,302 @@ RULE = (
     "shuffled+flipped bonds, edited non-hash fields) x must-differ single edits (coordinate +-1e-6, symbol, mass, charge, multiplicity, ghost flag, fragment "
     "boundary, bond order/add/remove); every pair inside a group is judged by the pairwise iff. Plus unvalidated molecules with raw float fields (band, -0.0, "
     "fractional charges) and float_prep value streams (array: ties odd/2^(k+1), band edges, re-fed rounded doubles; scalar: arbitrary doubles incl. near-ties) for "
-    "the model tie. A case is distinct by (clause, hash pair) and non-trivial when it is a pair of different constructions/inputs."
+    "the model tie. Added per group: (i) the pinned molecule as a stored record carrying identifiers (its true molecule_hash/molecular_formula, a stale one, a "
+    "foreign one) and hash-like strings in name/comment/extras/provenance - must hash and compare equal; generated non-hash fields also carry foreign "
+    "molecule_hash / molecular_formula strings; (ii) the perturbation stream (noise<=1e-10 on every stored coordinate, +-0 and |x|<5e-9 on zero coordinates, -0.0 "
+    "charges) applied to the stored record and re-entered through routes that skip constructor rounding (copy(update=), dict with validated=True, validate=False, "
+    "from_data(dict), json text, json/json-ext/msgpack/msgpack-ext payloads edited after serialisation + parse_raw) - must hash equal to the unperturbed molecule; "
+    "(iii) copy-with-edit of such a record (copy(update=), Molecule(**{**m.dict(), field: new}) with validate default/False/True, from_data, json text, edited "
+    "payloads) with ONE listed field changed above its rounding unit while the now stale identifiers ride along - judged by the pairwise iff. ==/!= is evaluated "
+    "next to hash equality on EVERY pair of a group: all six forms (a==b, b==a, a!=b, b!=a, a==b.dict(), b==a.dict()) on every pair against the pinned molecule "
+    "and on every anomalous pair, one form (rotating through both operators and both operand orders) on every other pair. "
+    "A case is distinct by (clause, hash pair) and non-trivial when it is a pair of different constructions/inputs."
 )
 LEVEL_TEXT = (
-    "Lean proofs for all molecules (no size bound) about a hand model of get_hash/float_prep/bond sorting, with SHA-1 and float printing as explicit injectivity "
-    "hypotheses (partial); the model is tied to the code by differential runs comparing canonical fields and the complete json preimage; construction routes are "
-    "oracle-only."
+    "Lean proofs for all molecules (no size bound) about a hand model of get_hash/float_prep/bond sorting. The general theorems take float rounding and float "
+    "printing as hypotheses (FlOk, Params.Ok); both are now DISCHARGED by proof for the concrete functions the driver executes (rndDouble; reprRd/reprRat print "
+    "the exact decimal value), and every theorem is restated at those concrete parameters with the hypotheses gone. Still partial: SHA-1 stays abstract "
+    "(collision-freeness is a hypothesis of the 'only if' direction), the zero band (0, 5^-(k+1)) is excluded from the iff (known finding), and that CPython/numpy "
+    "compute what the concrete functions compute is differential (character-by-character preimage comparison; value streams). The constants and the field list the "
+    "model hard-codes (noise constants, hash_fields and its order, field -> constant map, zero-band base/offset) are regenerated from molecule.py on every run and "
+    "proved equal to the model's. The rest of the model is tied to the code by differential runs comparing canonical fields and the complete json preimage; "
+    "construction routes, ==/!= and copy-with-edit are oracle-only."
 )
-TECHNIQUE = "Lean 4 proof of canonical-form / injectivity / sorting theorems about a hand model + behavioural correspondence + independent pairwise oracle"
+TECHNIQUE = "Lean 4 proof of canonical-form / injectivity / sorting theorems about a hand model, with the numeric and printing parameters discharged for the executed functions + ast translator for constants and field list + behavioural correspondence + independent pairwise oracle"
+
+
+# --------------------------------------------------------------------------------------
+# translator: the constants / field list the hand model hard-codes, re-read from molecule.py by `ast`
+# (never by importing) -> lean/QcelVerif/Gen/HashSpec.lean.  Props/C11Spec.lean proves the model's own
+# tables EQUAL to the generated ones, so a change of any of them in the source breaks a proof obligation
+# even if no generated molecule exposes it.  Only the syntax tree is read: whitespace, comments, line
+# breaks, docstrings, quote style, parenthesisation and the order of the if/elif branches are immaterial.
+
+
+class HashSpecError(ValueError):
+    pass
+
+
+def _int_const(node):
+    """an int literal (optionally signed) -> int, else None"""
+    if isinstance(node, pyast.Constant) and type(node.value) is int:
+        return node.value
+    if isinstance(node, pyast.UnaryOp) and isinstance(node.op, (pyast.USub, pyast.UAdd)):
+        v = _int_const(node.operand)
+        if v is not None:
+            return -v if isinstance(node.op, pyast.USub) else v
+    return None
+
+
+def _linear(node, var):
+    """node as a*var + b with integer a, b (only + - unary- and * by an int literal), else HashSpecError"""
+    c = _int_const(node)
+    if c is not None:
+        return (0, c)
+    if isinstance(node, pyast.Name) and node.id == var:
+        return (1, 0)
+    if isinstance(node, pyast.UnaryOp) and isinstance(node.op, pyast.USub):
+        a, b = _linear(node.operand, var)
+        return (-a, -b)
+    if isinstance(node, pyast.UnaryOp) and isinstance(node.op, pyast.UAdd):
+        return _linear(node.operand, var)
+    if isinstance(node, pyast.BinOp) and isinstance(node.op, (pyast.Add, pyast.Sub)):
+        a1, b1 = _linear(node.left, var)
+        a2, b2 = _linear(node.right, var)
+        return (a1 + a2, b1 + b2) if isinstance(node.op, pyast.Add) else (a1 - a2, b1 - b2)
+    if isinstance(node, pyast.BinOp) and isinstance(node.op, pyast.Mult):
+        for x, y in ((node.left, node.right), (node.right, node.left)):
+            c = _int_const(x)
+            if c is not None:
+                a, b = _linear(y, var)
+                return (c * a, c * b)
+    raise HashSpecError("exponent of the zero band is not linear in `%s`: %s" % (var, pyast.dump(node)))
+
+
+def _is_abs_of(node, arr):
+    """np.abs(arr) / np.absolute(arr) / numpy.abs(arr) / abs(arr)"""
+    if not (isinstance(node, pyast.Call) and len(node.args) == 1 and not node.keywords):
+        return False
+    if not (isinstance(node.args[0], pyast.Name) and node.args[0].id == arr):
+        return False
+    f = node.func
+    if isinstance(f, pyast.Name):
+        return f.id == "abs"
+    return isinstance(f, pyast.Attribute) and f.attr in ("abs", "absolute", "fabs") and isinstance(f.value, pyast.Name) and f.value.id in ("np", "numpy")
+
+
+def _str_list(node):
+    if isinstance(node, (pyast.List, pyast.Tuple)) and all(isinstance(e, pyast.Constant) and isinstance(e.value, str) for e in node.elts):
+        return [e.value for e in node.elts]
+    return None
+
+
+def extract_hash_spec(path) -> dict:
+    """Everything by `ast` from qcelemental/models/molecule.py:
+    module constants *_NOISE, `hash_fields` (order kept), the field -> float_prep-constant map of `get_hash`,
+    and base / exponent offset of float_prep's zero band `B ** (-(around + O))`."""
+    tree = pyast.parse(path.read_text())
+    consts = {}
+    for node in tree.body:
+        tgt, val = None, None
+        if isinstance(node, pyast.Assign) and len(node.targets) == 1 and isinstance(node.targets[0], pyast.Name):
+            tgt, val = node.targets[0].id, node.value
+        elif isinstance(node, pyast.AnnAssign) and isinstance(node.target, pyast.Name) and node.value is not None:
+            tgt, val = node.target.id, node.value
+        if tgt is not None and _int_const(val) is not None:
+            consts[tgt] = _int_const(val)
+    for name in ("GEOMETRY_NOISE", "MASS_NOISE", "CHARGE_NOISE"):
+        if name not in consts or consts[name] < 0:
+            raise HashSpecError(f"module constant {name} is not a non-negative int literal")
+
+    # ---- float_prep: array[np.abs(array) < B ** (-(around + O))] = 0
+    fps = [n for n in tree.body if isinstance(n, pyast.FunctionDef) and n.name == "float_prep"]
+    if len(fps) != 1 or len(fps[0].args.args) < 2:
+        raise HashSpecError("module-level float_prep(array, around) not found")
+    fp = fps[0]
+    arr, around = fp.args.args[0].arg, fp.args.args[1].arg
+    bands = []
+    for n in pyast.walk(fp):
+        if not (isinstance(n, pyast.Assign) and len(n.targets) == 1 and isinstance(n.targets[0], pyast.Subscript)):
+            continue
+        sub = n.targets[0]
+        if not (isinstance(sub.value, pyast.Name) and sub.value.id == arr and isinstance(sub.slice, pyast.Compare)):
+            continue
+        cmp_ = sub.slice
+        if len(cmp_.ops) != 1 or len(cmp_.comparators) != 1:
+            raise HashSpecError("zero band: chained comparison")
+        left, op, right = cmp_.left, cmp_.ops[0], cmp_.comparators[0]
+        if isinstance(op, pyast.Gt) and _is_abs_of(right, arr):  # thr > |x|  is the same statement
+            left, op, right = right, pyast.Lt(), left
+        if not (isinstance(op, pyast.Lt) and _is_abs_of(left, arr)):
+            raise HashSpecError("zero band: expected `abs(array) < B ** (-(around + O))`, got " + pyast.unparse(cmp_))
+        if isinstance(right, pyast.BinOp) and isinstance(right.op, pyast.Pow) and isinstance(right.left, pyast.Constant) \
+                and type(right.left.value) is float and right.left.value == int(right.left.value):
+            right = pyast.BinOp(left=pyast.Constant(value=int(right.left.value)), op=right.op, right=right.right)  # 5.0 ** e is 5 ** e
+        if not (isinstance(right, pyast.BinOp) and isinstance(right.op, pyast.Pow) and _int_const(right.left) is not None):
+            raise HashSpecError("zero band: the threshold is not `<int> ** <expr>`: " + pyast.unparse(right))
+        a, b = _linear(right.right, around)
+        if a != -1 or b > 0:
+            raise HashSpecError("zero band: exponent is not -(around + O) with O >= 0: " + pyast.unparse(right.right))
+        zero = n.value
+        if not (isinstance(zero, pyast.Constant) and type(zero.value) in (int, float) and zero.value == 0 and math.copysign(1.0, float(zero.value)) > 0):
+            raise HashSpecError("zero band: entries are not set to +0")
+        bands.append((_int_const(right.left), -b))
+    if len(bands) != 1:
+        raise HashSpecError(f"float_prep: expected exactly one zero-band assignment, found {len(bands)}")
+    base, off = bands[0]
+    if base < 2:
+        raise HashSpecError("zero band: base < 2")
+
+    # ---- class Molecule: hash_fields and get_hash
+    cls = [n for n in tree.body if isinstance(n, pyast.ClassDef) and n.name == "Molecule"]
+    if len(cls) != 1:
+        raise HashSpecError("class Molecule not found")
+    fields = None
+    get_hash = None
+    for n in cls[0].body:
+        if isinstance(n, pyast.FunctionDef) and n.name == "hash_fields":
+            rets = [r for r in pyast.walk(n) if isinstance(r, pyast.Return)]
+            if len(rets) == 1:
+                fields = _str_list(rets[0].value)
+        elif isinstance(n, pyast.Assign) and any(isinstance(t, pyast.Name) and t.id == "hash_fields" for t in n.targets):
+            fields = _str_list(n.value)
+        elif isinstance(n, pyast.AnnAssign) and isinstance(n.target, pyast.Name) and n.target.id == "hash_fields" and n.value is not None:
+            fields = _str_list(n.value)
+        elif isinstance(n, pyast.FunctionDef) and n.name == "get_hash":
+            get_hash = n
+    if not fields or len(set(fields)) != len(fields):
+        raise HashSpecError("Molecule.hash_fields is not a literal list of distinct strings")
+    if get_hash is None:
+        raise HashSpecError("Molecule.get_hash not found")
+    loops = [n for n in pyast.walk(get_hash) if isinstance(n, pyast.For) and isinstance(n.iter, pyast.Attribute) and n.iter.attr == "hash_fields"
+             and isinstance(n.target, pyast.Name)]
+    if len(loops) != 1:
+        raise HashSpecError("get_hash: expected one `for <field> in self.hash_fields` loop")
+    loop = loops[0]
+    fvar = loop.target.id
+
+    def tested_fields(test):
+        """field == "x" | "x" == field | field in ("x", "y") | a or b"""
+        if isinstance(test, pyast.BoolOp) and isinstance(test.op, pyast.Or):
+            out = []
+            for v in test.values:
+                out += tested_fields(v)
+            return out
+        if isinstance(test, pyast.Compare) and len(test.ops) == 1:
+            l, op, r = test.left, test.ops[0], test.comparators[0]
+            if isinstance(op, pyast.Eq):
+                for x, y in ((l, r), (r, l)):
+                    if isinstance(x, pyast.Name) and x.id == fvar and isinstance(y, pyast.Constant) and isinstance(y.value, str):
+                        return [y.value]
+            if isinstance(op, pyast.In) and isinstance(l, pyast.Name) and l.id == fvar and _str_list(r) is not None:
+                return _str_list(r)
+        raise HashSpecError("get_hash: unrecognised test " + pyast.unparse(test))
+
+    def prep_arg(stmts):
+        """the second argument of the float_prep call in a branch body"""
+        calls = [c for st in stmts for c in pyast.walk(st) if isinstance(c, pyast.Call) and isinstance(c.func, pyast.Name) and c.func.id == "float_prep"]
+        if len(calls) != 1:
+            raise HashSpecError("get_hash: expected exactly one float_prep call per branch")
+        c = calls[0]
+        arg = c.args[1] if len(c.args) >= 2 else next((k.value for k in c.keywords if k.arg == around), None)
+        if arg is None:
+            raise HashSpecError("get_hash: float_prep call without `around`")
+        if isinstance(arg, pyast.Name):
+            if arg.id not in consts:
+                raise HashSpecError(f"get_hash: {arg.id} is not a module-level int constant")
+            return arg.id, consts[arg.id]
+        if _int_const(arg) is not None and _int_const(arg) >= 0:
+            return "<literal>", _int_const(arg)
+        raise HashSpecError("get_hash: unrecognised `around` argument " + pyast.unparse(arg))
+
+    prep = {}
+    n_calls_seen = 0
+
+    def visit_if(node):
+        nonlocal n_calls_seen
+        names = tested_fields(node.test)
+        cname, k = prep_arg(node.body)
+        n_calls_seen += 1
+        for f in names:
+            if f in prep:
+                raise HashSpecError(f"get_hash: field {f} is tested twice")
+            prep[f] = (cname, k)
+        if len(node.orelse) == 1 and isinstance(node.orelse[0], pyast.If):
+            visit_if(node.orelse[0])
+        elif node.orelse:
+            raise HashSpecError("get_hash: an `else` branch in the rounding chain")
+
+    for st in loop.body:
+        if isinstance(st, pyast.If):
+            visit_if(st)
+    total_calls = sum(1 for c in pyast.walk(get_hash) if isinstance(c, pyast.Call) and isinstance(c.func, pyast.Name) and c.func.id == "float_prep")
+    if total_calls != n_calls_seen:
+        raise HashSpecError("get_hash: a float_prep call outside the recognised `if field == ...` chain")
+    for f in prep:
+        if f not in fields:
+            raise HashSpecError(f"get_hash rounds {f}, which is not in hash_fields")
+    return {"consts": {k: consts[k] for k in ("GEOMETRY_NOISE", "MASS_NOISE", "CHARGE_NOISE")}, "fields": fields, "prep": prep,
+            "zero_band": {"base": base, "offset": off}}
+
+
+def _lean_str(s: str) -> str:
+    if not all(32 <= ord(ch) < 127 and ch not in '"\\' for ch in s):
+        raise HashSpecError("field name with characters outside printable ASCII: %r" % s)
+    return '"' + s + '"'
+
+
+def render_hash_spec(spec: dict) -> str:
+    rows = []
+    for f in spec["fields"]:
+        k = spec["prep"].get(f)
+        rows.append(f"({_lean_str(f)}, " + ("none" if k is None else f"some {k[1]}") + ")")
+    crow = [f"({_lean_str(f)}, {_lean_str(spec['prep'][f][0])})" for f in spec["fields"] if f in spec["prep"]]
+    lines = [
+        "/-! GENERATED by harness/c11.py:gen_hash_spec from qcelemental/models/molecule.py (read by `ast`) — do not edit -/",
+        "namespace QcelVerif.Hash.Gen",
+        "",
+    ]
+    for name in ("GEOMETRY_NOISE", "MASS_NOISE", "CHARGE_NOISE"):
+        lines.append(f"def {name} : Nat := {spec['consts'][name]}")
+    lines += [
+        "",
+        "/-- `Molecule.hash_fields` in source order; `some k`: `get_hash` passes the field through `float_prep(·, k)` -/",
+        "def fieldSpec : List (String × Option Nat) :=",
+        "  [ " + ",\n    ".join(rows) + " ]",
+        "",
+        "/-- the module constant `get_hash` names for each rounded field (in `hash_fields` order) -/",
+        "def fieldConst : List (String × String) :=",
+        "  [ " + ",\n    ".join(crow) + " ]",
+        "",
+        "/-- `float_prep`: `array[abs(array) < zeroBandBase ** (-(around + zeroBandExpOffset))] = 0` -/",
+        f"def zeroBandBase : Nat := {spec['zero_band']['base']}",
+        f"def zeroBandExpOffset : Nat := {spec['zero_band']['offset']}",
+        "",
+        "end QcelVerif.Hash.Gen",
+    ]
+    return "\n".join(lines) + "\n"
+
+
+def gen_hash_spec(ctx=None) -> None:
+    import common
+
+    gen = common.LEAN / "QcelVerif" / "Gen"
+    gen.mkdir(exist_ok=True)
+    f = gen / "HashSpec.lean"
+    try:
+        spec = extract_hash_spec(common.REPO / "qcelemental" / "models" / "molecule.py")
+        body = render_hash_spec(spec)
+    except Exception as e:
+        # never leave a stale table behind that could still satisfy Props/C11Spec.lean: the obligations must fail with the translator
+        msg = str(e).replace("-/", "- /")
+        f.write_text("/-! GENERATED by harness/c11.py:gen_hash_spec - the source could NOT be translated:\n" + msg + "\n-/\nnamespace QcelVerif.Hash.Gen\nend QcelVerif.Hash.Gen\n")
+        raise
+    if not f.exists() or f.read_text() != body:
+        f.write_text(body)
+
+
+TRANSLATORS = [gen_hash_spec]
 
 KNOISE = {"masses": 6, "geometry": 8, "fragment_charges": 4}
 ZERO_BAND_KIND = "oracle:zero_band_collision"
@@ -363,8 +687,16 @@ def gen_nonhash(rng, nat):
         nh["comment"] = rng.choice(["generated", "a comment with [brackets], \"quotes\"", "0.01"])
     if rng.random() < 0.3:
         nh["extras"] = {"k": rng.randint(0, 9), "l": [1, 2.5]}
-    if rng.random() < 0.25:
-        nh["identifiers"] = {"smiles": rng.choice(["O", "C#N", "[H][H]"])}
+    if rng.random() < 0.45:
+        ids = {}
+        if rng.random() < 0.5:
+            ids["smiles"] = rng.choice(["O", "C#N", "[H][H]"])
+        if rng.random() < 0.75:  # a stored hash string that is NOT this molecule's (stale / foreign): never part of the identity
+            ids["molecule_hash"] = rng.choice(["0" * 40, "%040x" % rng.getrandbits(160), "da39a3ee5e6b4b0d3255bfef95601890afd80709"])
+        if rng.random() < 0.4:
+            ids["molecular_formula"] = rng.choice(["H2O", "CH4", "He", "C2H6O"])
+        if ids:
+            nh["identifiers"] = ids
     if rng.random() < 0.2:
         nh["provenance"] = {"creator": "c11", "version": "1.%d" % rng.randint(0, 9), "routine": "gen"}
     if rng.random() < 0.2:
@@ -644,6 +976,8 @@ def via_route(route, mol, workdir, rng=None):
     """re-create `mol` through a storage/transport route; molecules with bonds go through text by re-attaching the bonds to a re-validated dict"""
     from qcelemental.models import Molecule
 
+    if route.startswith("x:"):
+        return apply_recipe(mol, json.loads(route[2:]))
     with quiet(), warnings.catch_warnings():
         warnings.simplefilter("ignore")
         if route == "dict":
@@ -685,6 +1019,181 @@ def via_route(route, mol, workdir, rng=None):
         return got
 
 
+# ---- derived routes: a stored record (possibly carrying identifiers) re-enters through a route that does NOT re-validate ------
+# route string = "x:" + json of the recipe, so that a replay rebuilds exactly the same object from the base spec.
+#   ids     : None | "true" (this molecule's own hash/formula, as a database hands a record back) | "stale" | "foreign"
+#   mislead : name / comment / extras / provenance filled with hash-like strings
+#   how     : "none" | "copy_update" | "dict" | "dict_novalidate" | "dict_validate" | "from_data_dict" | "json_text" | "enc:<encoding>"
+#   set     : {field (alias name): new value} applied to the record on that route (identifiers ride along untouched)
+
+IDS_MODES = ["true", "stale", "foreign"]
+RECORD_HOWS = ["copy_update", "dict", "dict_novalidate", "from_data_dict", "json_text"] + ["enc:" + e for e in ENCODINGS]
+EDIT_HOWS = ["copy_update", "copy_update", "dict", "dict", "dict_novalidate", "dict_validate", "from_data_dict", "json_text", "enc:json", "enc:msgpack-ext"]
+ATTR_OF = {"symbols": "symbols", "geometry": "geometry", "masses": "masses_", "real": "real_", "molecular_charge": "molecular_charge",
+           "molecular_multiplicity": "molecular_multiplicity", "fragments": "fragments_", "fragment_charges": "fragment_charges_",
+           "fragment_multiplicities": "fragment_multiplicities_", "connectivity": "connectivity_"}
+
+
+def ids_for(mode, mol):
+    h, f = mol.get_hash(), mol.get_molecular_formula()
+    if mode == "true":
+        return {"molecule_hash": h, "molecular_formula": f}
+    if mode == "stale":
+        return {"molecule_hash": hashlib.sha1((h + "/stale").encode()).hexdigest(), "molecular_formula": "CH4" if f != "CH4" else "H2O"}
+    if mode == "foreign":
+        return {"molecule_hash": "0" * 40, "molecular_formula": f, "smiles": "O"}
+    raise KeyError(mode)
+
+
+def _obj_value(field, v):
+    """JSON-able recipe value -> what a Molecule attribute / constructor keyword holds"""
+    if field == "geometry":
+        return np.array(v, dtype=float).reshape(-1, 3)
+    if field == "symbols":
+        return np.array(v, dtype=str)
+    if field in ("masses", "fragment_charges"):
+        return np.array(v, dtype=float) if field == "masses" else [float(x) for x in v]
+    if field == "real":
+        return np.array(v, dtype=bool)
+    if field == "fragments":
+        return [np.array(f, dtype=np.int32) for f in v]
+    if field == "fragment_multiplicities":
+        return [int(x) for x in v]
+    if field == "connectivity":
+        return [(int(a), int(b), float(o)) for a, b, o in v]
+    if field == "molecular_charge":
+        return float(v)
+    if field == "molecular_multiplicity":
+        return int(v)
+    raise KeyError(field)
+
+
+def apply_recipe(mol, rec):
+    from qcelemental.models import Molecule
+    from qcelemental.util import deserialize, serialize
+
+    with quiet(), warnings.catch_warnings():
+        warnings.simplefilter("ignore")
+        src = mol
+        if rec.get("ids") or rec.get("mislead"):
+            d = copy.deepcopy(mol.dict())
+            if rec.get("ids"):
+                d["identifiers"] = ids_for(rec["ids"], mol)
+            if rec.get("mislead"):
+                h = mol.get_hash()
+                d["name"] = h
+                d["comment"] = "molecule_hash=" + "f" * 40
+                d["extras"] = {"molecule_hash": "0" * 40, "hash": h, "molecular_formula": "H2O"}
+                d["provenance"] = {"creator": "database", "version": "1", "routine": h}
+            src = Molecule(**d)  # validated=True rides in the dict: stored as handed over
+        how = rec.get("how", "none")
+        new = rec.get("set") or {}
+        if how == "none":
+            return src
+        if how == "copy_update":
+            return src.copy(update={ATTR_OF[k]: _obj_value(k, v) for k, v in new.items()})
+        if how in ("dict", "dict_novalidate", "dict_validate", "from_data_dict"):
+            d = copy.deepcopy(src.dict())
+            for k, v in new.items():
+                d[k] = _obj_value(k, v)
+            if how == "dict":
+                return Molecule(**d)
+            if how == "dict_novalidate":
+                return Molecule(validate=False, **d)
+            if how == "dict_validate":
+                d.pop("validated", None)
+                return Molecule(validate=True, **d)
+            return Molecule.from_data(d)
+        if how == "json_text":
+            js = json.loads(src.json())
+            for k, v in new.items():
+                js[k] = v
+            return Molecule.from_data(json.dumps(js), dtype="json")
+        if how.startswith("enc:"):
+            e = how[4:]
+            payload = deserialize(src.serialize(e), e)
+            for k, v in new.items():
+                payload[k] = np.array(v, dtype=float) if (e.endswith("-ext") and k in ("geometry", "masses")) else v
+            return Molecule.parse_raw(serialize(payload, e), encoding=e)
+        raise KeyError(how)
+
+
+def record_perturbations(rng, mol):
+    """(family, {field: value}) — the property's perturbations applied to the STORED record of `mol`:
+    noise <= 1e-10 on every coordinate (stored coordinates are multiples of 1e-8: far from a rounding boundary),
+    +-0 and |x| < 5e-9 on the coordinates stored as 0, -0.0 on zero charges."""
+    g = [float(x) for x in np.asarray(mol.geometry).ravel()]
+    out = [("noise", {"geometry": [x + rng.uniform(-1e-10, 1e-10) for x in g]})]
+    zi = [i for i, x in enumerate(g) if x == 0.0]
+    new = {}
+    if zi:
+        g2 = list(g)
+        for i in zi:
+            g2[i] = rng.choice([-0.0, -0.0, 0.0, 1e-9, -1e-9, 3e-9, -3e-9, 4.4e-9, -4.4e-9, -1e-12, 5e-324, -5e-324])
+        if any(math.copysign(1.0, a) != math.copysign(1.0, b) or a != b for a, b in zip(g, g2)):
+            new["geometry"] = g2
+    if float(mol.molecular_charge) == 0.0 and rng.random() < 0.6:
+        new["molecular_charge"] = -0.0
+    fc = [float(x) for x in mol.fragment_charges]
+    if any(x == 0.0 for x in fc) and rng.random() < 0.6:
+        new["fragment_charges"] = [(-0.0 if x == 0.0 else x) for x in fc]
+    if new:
+        out.append(("signzero", new))
+    return out
+
+
+def record_edits(rng, mol):
+    """(field, {field: value}) — ONE listed field of the stored record changed above its rounding unit (alias names)."""
+    nat = len(mol.symbols)
+    g = [float(x) for x in np.asarray(mol.geometry).ravel()]
+    out = []
+    i = rng.randrange(len(g))
+    g2 = list(g)
+    g2[i] = float(Decimal(repr(g[i])) + Decimal(rng.choice(["1e-6", "-1e-6"])))
+    out.append(("geometry", {"geometry": g2}))
+    syms = [str(x) for x in mol.symbols]
+    j = rng.randrange(nat)
+    nb = neighbours_same_parity(syms[j])
+    if nb:
+        s2 = list(syms)
+        s2[j] = rng.choice(nb)
+        out.append(("symbols", {"symbols": s2}))
+    ms = [float(x) for x in mol.masses]
+    j = rng.randrange(nat)
+    ms[j] = float(Decimal(repr(round(ms[j], 6))) + Decimal(rng.choice(["0.001", "-0.001", "0.000002"])))
+    out.append(("masses", {"masses": ms}))
+    out.append(("molecular_charge", {"molecular_charge": float(mol.molecular_charge) + rng.choice([1.0, -1.0, 2.0])}))
+    out.append(("molecular_multiplicity", {"molecular_multiplicity": int(mol.molecular_multiplicity) + 2}))
+    real = [bool(x) for x in mol.real]
+    j = rng.randrange(nat)
+    real[j] = not real[j]
+    out.append(("real", {"real": real}))
+    fr = [[int(i) for i in f] for f in mol.fragments]
+    if len(fr) >= 2:
+        k = rng.randrange(len(fr) - 1)
+        if len(fr[k]) >= 2:
+            fr2 = copy.deepcopy(fr)
+            fr2[k + 1].insert(0, fr2[k].pop())
+            out.append(("fragments", {"fragments": fr2}))
+        elif len(fr[k + 1]) >= 2:
+            fr2 = copy.deepcopy(fr)
+            fr2[k].append(fr2[k + 1].pop(0))
+            out.append(("fragments", {"fragments": fr2}))
+    conn = mol.connectivity
+    if conn:
+        c2 = [[int(a), int(b), float(o)] for a, b, o in conn]
+        j = rng.randrange(len(c2))
+        c2[j][2] = c2[j][2] + 0.5 if c2[j][2] + 0.5 <= 5 else c2[j][2] - 0.5
+        # a stored record keeps its bonds in canonical form (validation sorts them; a hand-made unsorted list inside an
+        # un-revalidated record is not a validated molecule: outside the quantifier, as DESIGN A.3 records for from_data(text, connectivity=))
+        c2 = [list(t) for t in sorted((min(a, b), max(a, b), o) for a, b, o in c2)]
+        out.append(("connectivity", {"connectivity": c2}))
+    elif nat >= 2:
+        a, b = sorted(rng.sample(range(nat), 2))
+        out.append(("connectivity", {"connectivity": [[a, b, 1.0]]}))
+    return out
+
+
 # --------------------------------------------------------------------------------------
 # group evaluation
 
@@ -710,6 +1219,7 @@ CLAUSE_KIND = {
     "signzero": "oracle:sign_of_zero_changes_hash",
     "bonds": "oracle:bond_listing_changes_hash",
     "nonhash": "oracle:nonhash_field_changes_hash",
+    "ids": "oracle:nonhash_field_changes_hash",
 }
 
 
@@ -720,6 +1230,43 @@ def case_of(base: Member, other: Member, seed_note=None):
     return c
 
 
+EQ_FORMS = ["a==b", "b==a", "a!=b", "b!=a", "a==b.dict()", "b==a.dict()"]
+
+
+def check_eq(out: Outcome, a: Member, b: Member, heq: bool, forms) -> bool:
+    """"same hash - AND compare equal - exactly when ...": every requested form of ==/!= (both operand orders, molecule and
+    dict operand) must say what hash equality says, whatever the non-hash fields (identifiers, name, extras ...) carry."""
+    got = {}
+    try:
+        with quiet(), warnings.catch_warnings():
+            warnings.simplefilter("ignore")
+            for f in forms:
+                if f == "a==b":
+                    got[f] = bool(a.mol == b.mol)
+                elif f == "b==a":
+                    got[f] = bool(b.mol == a.mol)
+                elif f == "a!=b":
+                    got[f] = not bool(a.mol != b.mol)
+                elif f == "b!=a":
+                    got[f] = not bool(b.mol != a.mol)
+                elif f == "a==b.dict()":
+                    got[f] = bool(a.mol == b.mol.dict())
+                elif f == "b==a.dict()":
+                    got[f] = bool(b.mol == a.mol.dict())
+                out.count("eq_form:" + f)
+    except Exception as e:  # noqa
+        out.violations.append(Finding("oracle:eq_raises", case_of(a, b), observed=err_class(e), detail="==/!= raised on two molecules"))
+        return False
+    bad = {f: v for f, v in got.items() if v != heq}
+    if bad:
+        out.violations.append(
+            Finding("oracle:eq_vs_hash", case_of(a, b), observed={"says_equal": got, "hash_equal": heq, "hash_a": a.hash, "hash_b": b.hash},
+                    expected="every form of ==/!= agrees with get_hash() equality", detail="==/!= disagrees with hash equality: " + ", ".join(sorted(bad)))
+        )
+        return False
+    return True
+
+
 def judge_pair(out: Outcome, a: Member, b: Member, clause: str, expect: str | None, inputs=False):
     """the pairwise iff, plus the clause's own expectation (same / None = whatever the fields say).
     inputs=True: both were built from keyword arguments; their identity is that of the coordinates handed in."""
@@ -727,16 +1274,7 @@ def judge_pair(out: Outcome, a: Member, b: Member, clause: str, expect: str | No
     use_in = inputs and a.rt_in is not None and b.rt_in is not None
     ta, tb = (a.rt_in, b.rt_in) if use_in else (a.rt, b.rt)
     teq = ta == tb
-    try:
-        with quiet(), warnings.catch_warnings():
-            warnings.simplefilter("ignore")
-            eq = bool(a.mol == b.mol)
-            eqd = bool(a.mol == b.mol.dict())
-    except Exception as e:  # noqa
-        out.violations.append(Finding("oracle:eq_raises", case_of(a, b), observed=err_class(e), detail="== raised on two molecules"))
-        eq = eqd = heq
-    if eq != heq or eqd != heq:
-        out.violations.append(Finding("oracle:eq_vs_hash", case_of(a, b), observed={"eq": eq, "eq_dict": eqd, "hash_equal": heq}, detail="== disagrees with hash equality"))
+    check_eq(out, a, b, heq, forms=EQ_FORMS)
     if expect == "same" and not heq:
         fam = clause.split(":")[0]
         out.violations.append(
@@ -877,6 +1415,31 @@ def run_group(ctx, out: Outcome, rng, spec0, workdir, lines, checks, tag="gen"):
             mem = Member("route:" + r, src.spec, r, got, "same")
             members.append(mem)
             out.count("member:route:" + r)
+    # ---- stored records: identifiers (true / stale / foreign) and hash-like strings in other non-hash fields ride along
+    def derived(label, rec, expect):
+        route = "x:" + json.dumps(rec, sort_keys=True)
+        try:
+            m = apply_recipe(pinned_mol, json.loads(route[2:]))
+        except Exception as e:  # noqa
+            out.count(f"rejected:{':'.join(label.split(':')[:2])}:{err_class(e)}")
+            return None
+        mem = Member(label, spec, route, m, expect)
+        members.append(mem)
+        out.count("member:" + ":".join(label.split(":")[:2]))
+        return mem
+
+    for mode in IDS_MODES:
+        derived("ids:" + mode, {"ids": mode, "mislead": mode == "foreign", "how": "none"}, "same")
+    # ---- the property's perturbations on records entering through routes that skip constructor rounding
+    perts = record_perturbations(rng, pinned_mol)
+    for fam, new in perts:
+        for how in rng.sample(RECORD_HOWS, 4 if fam == "noise" else 3):
+            derived(f"{fam}:record:{how}", {"ids": rng.choice([None, None, "true"]), "how": how, "set": new}, "same")
+    # ---- copy-with-edit of a record that carries its (then stale) identifiers: one listed field changed
+    redits = record_edits(rng, pinned_mol)
+    for field, new in rng.sample(redits, min(5, len(redits))):
+        how = rng.choice(EDIT_HOWS)
+        derived(f"cedit:{field}:{how}", {"ids": rng.choice(["true", "true", "stale", None]), "mislead": rng.random() < 0.3, "how": how, "set": new}, "diff")
     # edits
     for label, s in edits(rng, spec, pinned_mol):
         add(label, s, "diff")
@@ -895,11 +1458,16 @@ def run_group(ctx, out: Outcome, rng, spec0, workdir, lines, checks, tag="gen"):
     # all other pairs: the iff only
     others = members[2:]
     npairs = 0
+    rot = rng.randrange(4)
     for i in range(len(others)):
         for j in range(i + 1, len(others)):
             a, b = others[i], others[j]
             if (a.hash == b.hash) != (a.rt == b.rt):
                 judge_pair(out, a, b, a.label + " vs " + b.label, None)
+            else:
+                # ==/!= next to hash equality on EVERY pair: one form per pair, rotating through both operators and both
+                # operand orders (all six forms are evaluated on every pair against the pinned molecule, in judge_pair)
+                check_eq(out, a, b, a.hash == b.hash, forms=[EQ_FORMS[(rot + npairs) % 4]])
             npairs += 1
     out.evaluations += npairs
     out.count("pairs_cross", npairs)
@@ -1028,8 +1596,8 @@ def raw_stream(ctx, out: Outcome, lines, checks):
         # == vs hash on raw molecules too
         if prev is not None:
             heq = prev.hash == mem.hash
-            if bool(prev.mol == mem.mol) != heq:
-                out.violations.append(Finding("oracle:eq_vs_hash", {"block": "rawpair", "a": prev.spec, "b": mem.spec}, observed={"hash_equal": heq}, detail="== disagrees with hash equality (unvalidated molecules)"))
+            if bool(prev.mol == mem.mol) != heq or bool(mem.mol == prev.mol) != heq or (not bool(prev.mol != mem.mol)) != heq:
+                out.violations.append(Finding("oracle:eq_vs_hash", {"block": "rawpair", "a": prev.spec, "b": mem.spec}, observed={"hash_equal": heq}, detail="==/!= disagrees with hash equality (unvalidated molecules)"))
         prev = mem
 
 
@@ -1102,7 +1670,7 @@ def run(ctx: Ctx) -> Outcome:
     with warnings.catch_warnings():
         warnings.simplefilter("ignore")
         zero_band_fixed(out)
-        ngroups = ctx.scale(220, 2500)
+        ngroups = ctx.scale(160, 1400)
         for g in range(ngroups):
             sub = random.Random(ctx.rng.getrandbits(48))
             spec0 = gen_spec(sub)
@@ -1153,8 +1721,9 @@ def replay(ctx: Ctx, case) -> Outcome:
             with quiet():
                 a = Member("raw", case["a"], "raw", Molecule(**case["a"]["raw_kwargs"]), None)
                 b = Member("raw", case["b"], "raw", Molecule(**case["b"]["raw_kwargs"]), None)
-            if bool(a.mol == b.mol) != (a.hash == b.hash):
-                out.violations.append(Finding("oracle:eq_vs_hash", case, observed={"hash_equal": a.hash == b.hash}, detail="== disagrees with hash equality"))
+            heq = a.hash == b.hash
+            if bool(a.mol == b.mol) != heq or bool(b.mol == a.mol) != heq or (not bool(a.mol != b.mol)) != heq:
+                out.violations.append(Finding("oracle:eq_vs_hash", case, observed={"hash_equal": heq}, detail="==/!= disagrees with hash equality"))
             out.evaluations += 1
         elif block == "single":
             m = member_of({"spec": case["spec"], "route": case["route"]}, "single")
